@@ -19,8 +19,8 @@ import re
 
 from .inline import BASELINE
 
-# drift = 1 - similarity ratio of the two skeletons (tokens carry the nesting depth); edit = number of statements the pinned
-# function does not have (depth ignored; removed statements do not count).  Tiny functions change their ratio wildly with one statement, so both must be exceeded.
+# drift = 1 - similarity ratio of the two skeletons (tokens carry the nesting depth); edit = number of statements added or
+# removed (depth ignored).  Tiny functions change their ratio wildly with one statement, so both must be exceeded.
 MAX_DRIFT = 0.25
 MIN_EDIT = 4
 
@@ -115,9 +115,7 @@ def drift_of(func) -> tuple[float, int] | None:
     flat_b, flat_c = [t.split("|", 1)[-1] for t in base[q]], [t.split("|", 1)[-1] for t in cur]
     sm2 = difflib.SequenceMatcher(None, flat_b, flat_c, autojunk=False)
     matched = sum(b.size for b in sm2.get_matching_blocks())
-    # statements the pinned function does not have; statements that were only *removed* leave what remains the construct the rules
-    # were confirmed on (a deleted check is what the rules are there to report)
-    return 1 - sm.ratio(), len(flat_c) - matched
+    return 1 - sm.ratio(), len(flat_b) + len(flat_c) - 2 * matched
 
 
 def form_independent(prop: str, rule: str, construct: str) -> bool:
